@@ -295,8 +295,25 @@ def verify_contract(ctx, suite, c, sentinels=True, bv_widths=(4, 8), replay=None
     try:
         ex, inputs, obs = gen_obligations(suite, c)
     except Unsupported as e:
+        # The function (as it is now) is outside what the generator interprets.  On the unchanged tree every contract of a suite is inside;
+        # so this is a CHANGED function whose proof is gone: never a pass.  The contract is run natively as a monitor over the replay's
+        # reachable states -- a failing state is a violation with its input --, otherwise the verdict is UNDECIDED (exit 2).
         ctx.functions_out_of_subset.append("%s: %s" % (c.target, e))
-        ctx.obligation("%s.in-subset" % c.name, "unsupported", backend="dpvc", function=c.target, detail=str(e))
+        name = "%s.in-subset" % c.name
+        handled = False
+        if replay is not None:
+            class _O(object):
+                pass
+            ob = _O()
+            ob.name, ob.status, ob.time_s, ob.detail, ob.model = name, "unsupported", 0.0, "outside the verified subset: %s" % e, None
+            try:
+                handled = replay(ctx, suite, c, ob, None, bv_widths)
+            except Exception as e2:  # noqa -- a replay hook that cannot cope with a contract-level record
+                handled = False
+                ctx.note("native search for %s after leaving the subset failed: %s: %s" % (c.name, type(e2).__name__, e2))
+        if not handled:
+            ctx.obligation(name, "unsupported", backend="dpvc", function=c.target, detail=str(e))
+            ctx.undecided_ob(name, "outside the verified subset: %s" % e)
         return []
     for d in ex.dropped:
         if d not in ctx.dropped_statements:
